@@ -1788,6 +1788,35 @@ func E6OutlineNonzero(c *core.Ctx, r *core.Report) {
 									}
 								}
 							}
+						case *ast.Ident:
+							// a local that holds the operator: every value it can have, wherever it was assigned
+							o, isVar := core.ObjOf(info, x).(*types.Var)
+							if !isVar || o.IsField() || !(fd.Body.Pos() <= o.Pos() && o.Pos() < fd.Body.End()) || bad != "" {
+								return true
+							}
+							ast.Inspect(fd.Body, func(k ast.Node) bool {
+								as, ok := k.(*ast.AssignStmt)
+								if !ok || len(as.Lhs) != len(as.Rhs) {
+									return true
+								}
+								for i, l := range as.Lhs {
+									lid, ok := l.(*ast.Ident)
+									if !ok || core.ObjOf(info, lid) != o {
+										continue
+									}
+									ast.Inspect(as.Rhs[i], func(q ast.Node) bool {
+										if lit, ok := q.(*ast.BasicLit); ok && lit.Kind == token.STRING {
+											for _, w := range []string{"f*", "eofill", "evenodd", "B*", "b*"} {
+												if strings.Contains(lit.Value, w) && bad == "" {
+													bad, badPos = fmt.Sprintf("the outline is written through `%s`, which can hold the even-odd form %s", x.Name, lit.Value), x.Pos()
+												}
+											}
+										}
+										return true
+									})
+								}
+								return true
+							})
 						}
 						return true
 					})
